@@ -26,7 +26,7 @@ STUB_CLASSES = ("Rec", "Stub", "Loc", "TD", "Tok", "WStr",
                 # C16: recorder terms, recorded XML tree / generator, module stand-ins, result record, stream
                 "RecTerm", "RecURI", "RecLit", "RecBNode", "RecGen", "El", "_EtreeShim", "_JsonShim", "_Res", "_Stream", "_RecLit", "_RdflibShim",
                 # C06: recording graph / dataset / store stand-ins, JSON line, source, output
-                "StubDS", "StubCG", "StubCtx", "StubStore", "_Line", "_Json", "_Source", "_Out")
+                "StubDS", "StubCG", "StubCtx", "StubStore", "_Line", "_Json", "_Source", "_Out", "HBNode", "TrixGraph", "_TrixStore", "_ListMap", "_Loc")
 
 
 class HarnessLimit(Exception):
